@@ -289,7 +289,7 @@ class FaultOracle(Oracle):
         exp = self._expectation(run)
         seam = self.seam
         records = run.log.take()
-        warned = any(r.levelno >= logging.WARNING and "Matrix computation failed" in r.getMessage() for r in records)
+        warned = any(r.levelno >= logging.WARNING for r in records)  # (the property says "logs a warning", not its wording)
         fired = Counter(c["fault"] for c in seam.fired if c["fault"] != "ok")
         for c in seam.fired:
             if c["fault"] == "exception":
